@@ -142,13 +142,20 @@ class Injector:
         self.done = False
 
     def _stalled(self, world, mv):
-        """A stall plan holds the user's command at its j-th step until every other injection has fired."""
+        """A stall plan holds the user's command at its j-th step until every other injection has fired; a delay plan
+        holds the process (label, batch) at its j-th step for d scheduling steps of the others."""
         if mv[0] != "step":
             return False
         q = world.proc(mv[1])
         for i, pl in enumerate(self.plans):
+            if pl["kind"] == "delay" and q.label == pl["label"] and world._bnum(q.batch) == pl["b"] and q.nsteps == pl["j"]:
+                start = pl.setdefault("_start", world.steps)
+                if world.steps < start + pl["d"]:
+                    return True
+                self.fired[i] = True
+        for i, pl in enumerate(self.plans):
             if pl["kind"] == "stall" and q.host == "user" and q.nsteps == pl["j"]:
-                others = [f for k2, f in enumerate(self.fired) if self.plans[k2]["kind"] not in ("stall", "usertry")]
+                others = [f for k2, f in enumerate(self.fired) if self.plans[k2]["kind"] not in ("stall", "usertry", "delay")]
                 if not all(others):
                     return True
         return False
@@ -170,7 +177,7 @@ class Injector:
             moves = free
         mv = moves[self.rng.randrange(len(moves))]
         for i, pl in enumerate(self.plans):
-            if self.fired[i] or pl["kind"] in ("usertry", "stall"):
+            if self.fired[i] or pl["kind"] in ("usertry", "stall", "delay"):
                 continue
             if mv[0] != "step":
                 continue
